@@ -318,6 +318,11 @@ func c10(c *Ctx) {
 		c.Op(op, out)
 		c.Count(fmt.Sprintf("rank:len=%d", len(l)))
 		if want := c10ShowCands(c10FullSort(l, max)); out != want {
+			c.Count("oracle:c10/ranking-not-sort")
+			c10SigCount["c10/ranking-not-sort"]++
+			if c10SigCount["c10/ranking-not-sort"] > c10MaxPerSig {
+				continue
+			}
 			c.Fail("c10/ranking-not-sort", fmt.Sprintf("Rank(%d, %s) = %s, full sort = %s", max, c10ShowCands(l), out, want), nil)
 		}
 	}
